@@ -109,6 +109,9 @@ def m_len(interp, args, kwargs):
         return wrap(x.length)
     if isinstance(x, SMap):
         raise Unsupported('len of symbolic map')
+    from .pdict import PDict
+    if isinstance(x, PDict):
+        return x.length(interp)
     if isinstance(x, Opaque):
         return interp.reg.call_opaque(interp, x, '__len__', [], {})
     if isinstance(x, Sym):
@@ -935,6 +938,37 @@ def m_is_item(interp, args, kwargs):
     if isinstance(obj, SInt):
         return wrap(handle_of(interp, item) == obj.t)
     return item is obj
+
+
+def m_conj(interp, args, kwargs):
+    ts = []
+    for x in interp.iterate(args[0]):
+        t = interp.truth(x)
+        if t is False:
+            return False
+        if t is not True:
+            ts.append(to_z3(t))
+    return wrap(z3.And(*ts)) if ts else True
+
+
+def m_slot(interp, args, kwargs):
+    d, k = args
+    from .pdict import PDict
+    if isinstance(d, PDict):
+        key = d.resolve_key(interp, k)
+        v = d.values.get(key) if key is not None else None
+        return v if v is not None else ()
+    if isinstance(k, Sym):
+        k = interp.resolve(k) if isinstance(k, (SOpt, SChoice)) else k
+    return d.get(k, ())
+
+
+def m_snapshot_lists(interp, args, kwargs):
+    (d,) = args
+    from .pdict import PDict
+    if isinstance(d, PDict):
+        return d.snapshot(interp)
+    return {k: m_list(interp, [v], {}) for k, v in d.items()}
 
 
 def m_is_opaque(interp, args, kwargs):
